@@ -16,6 +16,7 @@ Spec: spec/Instantiate.tla (family "mods"), oracle mode (binding C).
 """
 import copy
 import random
+from concurrent.futures import ThreadPoolExecutor
 
 from vf import inst_run, par, ir_flat
 from vf.core import MachineryError, jkey
@@ -155,10 +156,15 @@ def run(ctx):
         ctx.note_drift("no-nested-spelling-rejected-any-more")
     # the as-built configuration must make TLC itself report the property violation
     violated = {}
-    for k, w in enumerate(ASBUILT_WITNESSES):
-        _, ab_res = inst_run.run_file_family(ctx, "Instantiate_file_asbuilt.cfg", [w],
-                                             "as-built switches on witness program %d: TLC is expected to report a violation" % k,
-                                             shards=1, expect_violation=True)
+
+    def witness(k):
+        return inst_run.run_file_family(ctx, "Instantiate_file_asbuilt.cfg", [ASBUILT_WITNESSES[k]],
+                                        "as-built switches on witness program %d: TLC is expected to report a violation" % k,
+                                        shards=1, expect_violation=True)[1]
+
+    with ThreadPoolExecutor(len(ASBUILT_WITNESSES)) as ex:
+        wres = list(ex.map(witness, range(len(ASBUILT_WITNESSES))))
+    for k, ab_res in enumerate(wres):
         v = sorted({x for r in ab_res for x in r.violated})
         if not v:
             raise MachineryError("as-built configuration of Instantiate.tla does not violate any invariant on witness %d "
